@@ -68,6 +68,8 @@ def show(t):
     k = t[0]
     if k == 'a':
         return 'a%d' % t[1]
+    if k == 'k':
+        return 'k%s' % (t[1],)
     if k == 'b':
         return '(b %d %s %s)' % (t[1], show(t[2]), show(t[3]))
     if k == 'p':
@@ -116,6 +118,23 @@ def from_ast(ops, n):
     if cls == 'Identifier':
         m = re.fullmatch(r'c(\d+)', str(n.parts[-1]))
         t = ('a', int(m.group(1))) if m and len(n.parts) == 1 else None
+    elif cls in ('Constant', 'NullConstant'):
+        # literal atoms: 100+n stands for atom n (grouping check); any other literal carries its own value (evaluation check)
+        v = getattr(n, 'value', None)
+        if cls == 'NullConstant' or v is None:
+            t = ('k', None)
+        elif isinstance(v, bool):
+            t = ('k', int(v))
+        elif isinstance(v, int):
+            if v >= 100:
+                t = ('a', v - 100)
+            elif v <= -100 and ops.pre_by_lex.get('-') is not None:
+                # the grammars fold `- <number>` into a negative constant: the same grouping (unary minus binds tightest)
+                t = ('p', ops.pre_by_lex['-'], ('a', -v - 100))
+            else:
+                t = ('k', v)
+        else:
+            t = None
     elif cls == 'BinaryOperation':
         op = re.sub(r'\s+', ' ', str(n.op).upper())
         o = ops.by_lex.get(op)
@@ -201,6 +220,8 @@ def evaluate(ops, t, env):
     k = t[0]
     if k == 'a':
         return env[t[1]]
+    if k == 'k':
+        return t[1]
     if k == 'q':
         return evaluate(ops, t[1], env)
     if k == 'p':
@@ -264,6 +285,25 @@ def evaluable(ops, t):
 
 
 ENVS = [(1, 2, 3, 0), (0, 0, 1, 2), (None, 1, 0, 2), (2, None, 1, 1), (3, 1, None, 0), (-1, 2, -2, None), (5, 3, 2, 7)]
+
+
+def fold_minus(ops, t):
+    """literal mode only: the grammars fold `- <number>` into one constant, so `- - 100` is the constant 100: collapse a double
+    unary minus directly over an atom (value preserving; nothing else is folded)"""
+    k = t[0]
+    if k in ('a', 'k'):
+        return t
+    if k == 'q':
+        return ('q', fold_minus(ops, t[1]))
+    if k == 'p':
+        u = fold_minus(ops, t[2])
+        m = ops.pre_by_lex.get('-')
+        if t[1] == m and u[0] == 'p' and u[1] == m and u[2][0] == 'a':
+            return u[2]
+        return ('p', t[1], u)
+    if k == 'w':
+        return ('w',) + tuple(fold_minus(ops, x) for x in t[1:])
+    return ('b', t[1], fold_minus(ops, t[2]), fold_minus(ops, t[3]))
 
 
 def lit(v):
@@ -379,6 +419,45 @@ def run(chk):
                                  sql=sql, sqlite=want, tree_value=val, tree=show(got), **{'class': 'eval'})
                         chk.classify(f, lambda k, f: False)
                         chk.fail(f)
+        # the same expression with LITERAL atoms (constants take other grammar rules than identifiers: folding rules such as
+        # `MINUS constant`, constructors that look at literal arguments): grouping with the distinct integers 100+n ...
+        if i % 3 == 2 or deep:
+            tl = to_sql(ops, ref, lambda n: str(100 + n))
+            cn = ctx_ok[d]
+            c = cn[(i // 3) % len(cn)]
+            got, err = parse_real(d, ops, tl, c)
+            chk.count((d, c, tl))
+            dist['%s/lit/%s' % (d, 'ok' if got == ref else 'differs')] = dist.get('%s/lit/%s' % (d, 'ok' if got == ref else 'differs'), 0) + 1
+            if got is None or fold_minus(ops, got) != fold_minus(ops, ref):
+                f = dict(desc='parser groups %r (literal operands) differently from SQL (or rejects it)' % tl, dialect=d, context=c,
+                         text=tl, expected=show(ref), got=show(got) if got else None, error=err, **{'class': 'grouping:literal-atoms'})
+                chk.classify(f, lambda k, f: False)
+                chk.fail(f)
+            # ... and evaluation of the tree parsed from the text with the VALUES written in (non-negative values only: a
+            # leading minus is a different token sequence)
+            if evaluable(ops, ref):
+                for env in [e for e in ENVS if all(v is None or v >= 0 for v in e)][:3 if not deep else 9]:
+                    sql_e = to_sql(ops, ref, lambda n: lit(env[n]))
+                    try:
+                        want = conn.execute('SELECT ' + sql_e).fetchone()[0]
+                    except sqlite3.Error:
+                        continue
+                    if isinstance(want, float):
+                        continue
+                    got, err = parse_real(d, ops, sql_e, 'select')
+                    chk.count(('eval-lit', d, sql_e))
+                    if got is None and err and "Unary minus can't be applied" in err:
+                        continue      # a deliberate, typed rejection of `- NULL` / `- 'text'`: not a grouping matter
+                    if got is None:
+                        f = dict(desc='expression with literal operands %r is rejected or leaves the fragment' % sql_e, dialect=d,
+                                 text=sql_e, error=err, **{'class': 'grouping:literal-values'})
+                        chk.classify(f, lambda k, f: False); chk.fail(f)
+                        continue
+                    val = evaluate(ops, got, env)
+                    if val != want:
+                        f = dict(desc='value of the tree parsed from %r differs from sqlite3' % sql_e, dialect=d, text=sql_e,
+                                 sql='SELECT ' + sql_e, sqlite=want, tree_value=val, tree=show(got), **{'class': 'eval:literal'})
+                        chk.classify(f, lambda k, f: False); chk.fail(f)
     if outs is not None:
         chk.corr_result('opm', n_ctx, diverged, first, dist)
     for (d, ops, src, t) in metas[:2] + metas[-2:]:
